@@ -116,6 +116,11 @@ class Module:
 
     def find(self, q, node_hint=0):
         n = self.top.get(q) if '.' not in q else self.methods.get(q)
+        if n is None and q.count('.') == 2:
+            # a function defined inside a method: Class.method.inner
+            outer = self.methods.get(q.rsplit('.', 1)[0])
+            inner = [x for x in (outer.body if outer is not None else []) if isinstance(x, ast.FunctionDef) and x.name == q.rsplit('.', 1)[1]]
+            n = inner[0] if len(inner) == 1 else None
         if n is None or not isinstance(n, ast.FunctionDef):
             raise Unsupported(node_hint, 'function %s named by the signature file is not in the source' % q)
         return n
@@ -203,7 +208,7 @@ class Module:
     def do_function(self, entry):
         q = entry['py']
         node = self.find(q)
-        method = '.' in q
+        method = '.' in q and q.count('.') < 2
         want_dec = {'getter': ['property'], 'setter': [q.split('.')[-2] + '.setter']}.get(q.split('.')[-1], []) if method else []
         if [ast.unparse(d) for d in node.decorator_list] != want_dec:
             raise Unsupported(node, 'decorators of %s' % q)
@@ -328,6 +333,40 @@ class Module:
         term = block(stmts, env, ctx, tail)
         params = ''.join(' (%s : %s)' % (cname(n), self.T.coq(t, False)) for n, t in ps)
         self.emit_def(entry['coq'], params, self.result_type(ctx), term, stmts[0] if stmts else node)
+
+    def do_stmt(self, entry):
+        """the one top-level statement of an otherwise untranslated method that assigns a given field of
+        the receiver, as a function of the named parameters returning the field's value"""
+        node = self.find(entry['py'])
+        recv, field = entry['assigns'].split('.')
+        hits = [x for x in node.body
+                if any(isinstance(n, ast.Attribute) and isinstance(n.ctx, ast.Store) and isinstance(n.value, ast.Name)
+                       and n.value.id == recv and n.attr == field for n in ast.walk(x))]
+        if len(hits) != 1:
+            raise Unsupported(node, '%d top-level statements of %s assign %s (exactly one expected)' % (len(hits), entry['py'], entry['assigns']))
+        self._cur = entry
+        argnames = [a.arg for a in node.args.args]
+        ps = [(n, parse_type(t)) for n, t in entry['params'].items()]
+        for n, _ in ps:
+            if n not in argnames:
+                raise Unsupported(node, 'parameter %s of %s named by the signature file no longer exists' % (n, entry['py']))
+        env = self.new_env({'state': None}, [(recv, ('struct', entry['self']))] + ps)
+        env.comps = {}
+        from stmt import effects
+        eff = effects(self, hits, env)
+        ret = self.structs[entry['self']][field]
+        ctx = Ctx(self, [], eff.exc, ret)
+
+        def tail(e):
+            if entry['assigns'] not in e.vars:
+                raise Unsupported(hits[0], '%s is not assigned on every path' % entry['assigns'])
+            cq, t = e.vars[entry['assigns']]
+            if t != ret:
+                raise Unsupported(hits[0], '%s has type %s, the signature file says %s' % (entry['assigns'], t, ret))
+            return ctx.ret_(e, cq, node)
+        term = block(hits, env, ctx, tail)
+        params = ''.join(' (%s : %s)' % x for x in self.coq_params([(recv, ('struct', entry['self']))] + ps))
+        self.emit_def(entry['coq'], params, self.result_type(ctx), term, hits[0])
 
     def do_const(self, entry):
         """class-level constant: frozenset / list / tuple of string constants"""
